@@ -27,7 +27,7 @@ ASSUMPTIONS = [
     'a joined field that reuses an existing target field name has the same type',
 ]
 BUDGET = {'quick': dict(examples=1600, shards=8, seconds=70),
-          'thorough': dict(examples=40000, shards=16, seconds=1200)}
+          'thorough': dict(examples=100000, shards=16, seconds=1200)}
 
 KEY_STR = ['a', 'b', 'a:b', 'c', 'b:c', '', 'None', 'é']
 KEY_INT = [0, 1, 2, 10]
